@@ -116,7 +116,7 @@ func classifyEvent(e stun.Event) string {
 		return "timeout"
 	case errors.Is(e.Error, sim.ErrInjectedWrite), errors.Is(e.Error, sim.ErrConnClosed):
 		return "writeerr"
-	case errors.As(e.Error, &se) && errors.Is(se.Cause, sim.ErrInjectedWrite):
+	case errors.As(e.Error, &se) && (errors.Is(se.Cause, sim.ErrInjectedWrite) || errors.Is(se.Cause, sim.ErrConnClosed)):
 		if se.Err == nil {
 			// StopErr is documented as "Client fails to stop transaction while
 			// processing error": one without a stop failure is not the error
@@ -465,7 +465,7 @@ func isWriteErr(err error) bool {
 		return true
 	}
 
-	return errors.As(err, &se) && se.Err != nil && errors.Is(se.Cause, sim.ErrInjectedWrite)
+	return errors.As(err, &se) && se.Err != nil && (errors.Is(se.Cause, sim.ErrInjectedWrite) || errors.Is(se.Cause, sim.ErrConnClosed))
 }
 
 // step executes one hop and checks it against the model.
